@@ -939,6 +939,12 @@ func allFields() []*field {
 		f.sqrt = func(a any) (any, bool) {
 			var r bls12381.BaseFieldElementG2
 			ok := r.V.Sqrt(&a.(E).V)
+			// the same call with the receiver aliasing the argument must give the same answer
+			al := a.(E).Clone()
+			ok2 := al.V.Sqrt(&al.V)
+			if ok != ok2 || (ok == 1 && !al.Equal(&r)) {
+				panic("Sqrt(&f) with aliased receiver differs from Sqrt into a fresh element")
+			}
 			return &r, ok == 1
 		}
 		fs = append(fs, f)
